@@ -48,14 +48,28 @@ def run(ctx):
             return b[0] == "call" and b[1] == "std::time::Instant::now" and a in (dls, dl)
         return False
     chk_edges = bool_edges(ri, T, is_clock_cmp, True)
-    # keep only checks whose true edge leaves the loop into Err(TimedOut)
+    # the clock comparisons of the function (wherever their answer travels before it is acted upon); a comparison counts as a deadline
+    # check when, answered 'elapsed' under a configured deadline, the iteration can only end in Err(TimedOut)
+    def call_term(bb_, t_):
+        return ("call", M.callee_str(t_["f"]), tuple(T.operand(a_) for a_ in t_["args"]), bb_)
+    cmp_sites = [bb_ for bb_, t_ in ri.calls() if is_clock_cmp(call_term(bb_, t_))]
+    is_timed = lambda bb_: any(st["k"] == "assign" and st["r"]["k"] == "agg" and st["r"].get("adt") == "std::io::ErrorKind" and st["r"]["variant"] == "TimedOut" for st in ri.blocks[bb_]["stmts"])
     good_blocks = set()
-    for (b, s) in chk_edges:
-        r = ri.reachable(s)
-        timed = any(st["k"] == "assign" and st["r"]["k"] == "agg" and st["r"].get("adt") == "std::io::ErrorKind" and st["r"]["variant"] == "TimedOut" for bb in r for st in ri.blocks[bb]["stmts"])
-        errs = [v for (bb, si, v, rr) in result_variants(ri, M.Explore(ri, start=s)) if True]
-        if loops and s not in loops[0] and timed and "Ok" not in errs:
-            good_blocks.add(b)
+    for cb in cmp_sites:
+        def af(t_, cb=cb):
+            if not t_:
+                return None
+            if t_[0] == "call" and len(t_) > 3 and t_[3] == cb and is_clock_cmp(t_):
+                return 1
+            if M.noref(t_) == dl:
+                return 1
+            return None
+        ex_c = M.Explore(ri, start=cb, assume_fn=af)
+        rv = [v for (bb_, si_, v, rr) in result_variants(ri, ex_c)]
+        timed = any(is_timed(bb_) for bb_ in ex_c.blocks)
+        back = bool(E.mp_call) and E.mp_call[0] in ex_c.blocks
+        if loops and cb in loops[0] and timed and rv and "Ok" not in rv and not back:
+            good_blocks.add(cb)
     rem = M.sccs(ri, blocks=ex.blocks, edges=ex.edges, removed=good_blocks) if loops else [set()]
     ctx.ob("R04.1", "every-iteration-checks-deadline", bool(good_blocks) and not rem, ri.loc(min(good_blocks) if good_blocks else (E.mp_call[0] if E.mp_call else 0)),
            "with a time limit, every iteration of the exchange loop must compare Instant::now() with the deadline and be able to return Err(TimedOut): today's only "
@@ -68,14 +82,24 @@ def run(ctx):
     ctx.floor("R04.1", "TimedOut construction sites", len(tb), 1)
     # "reports a timeout only if t has really elapsed": a TimedOut is built either after the clock test said so, or when the multiplexer
     # reported *no* stream ready at all (with a deadline: its poll ran the remaining time out; without one that cannot happen, R04.4)
-    nothing_e = [bool_edges(ri, T, (lambda k: lambda c: E.ready is not None and M.noref(c) in (E.ready[k], M.noref(E.ready[k])))(k), False) for k in range(3)]
     for tbb in sorted(set(tb)):
-        by_clock = dominated_by_edges(ri, tbb, chk_edges)
-        by_poll = all(ne and dominated_by_edges(ri, tbb, ne) for ne in nothing_e)
-        ctx.ob("R04.1", "timeout-only-if-elapsed", by_clock or by_poll, ri.loc(tbb),
+        # reaching the construction implies: the clock said 'elapsed', or none of the three flags was set -- i.e. it cannot be reached with
+        # every clock comparison answering 'not yet' and flag k set, for k = 0, 1, 2
+        reach = []
+        for k in range(3):
+            def af(t_, k=k):
+                if not t_:
+                    return None
+                if t_[0] == "call" and is_clock_cmp(t_):
+                    return 0
+                if E.ready is not None and M.noref(t_) in (E.ready[k], M.noref(E.ready[k])):
+                    return 1
+                return None
+            reach.append(tbb in M.Explore(ri, assume_fn=af).blocks)
+        ctx.ob("R04.1", "timeout-only-if-elapsed", E.ready is not None and not any(reach), ri.loc(tbb),
                "Err(TimedOut) may be produced only (a) under `Instant::now() >= deadline`, or (b) when maybe_poll reported none of stdin/stdout/stderr ready "
                "(all three flags false); a timeout raised while some stream is ready is reported before t elapsed — and even with no limit set "
-               "(clock-guarded=%s, all-three-flags-false=%s)" % (by_clock, by_poll))
+               "(reachable with the clock saying 'not yet' and flag k set: %s)" % reach)
 
     # ---- R04.2 no reportable event is ignored ----------------------------------------------------------
     Tm = M.Terms(mp)
